@@ -3,6 +3,7 @@
 use std::env;
 
 mod awset;
+mod local;
 mod rt;
 mod threaded;
 
@@ -11,6 +12,7 @@ fn main() {
     let args: Vec<String> = env::args().collect();
     match args.get(1).map(String::as_str) {
         Some("threads") => threaded::run(&args[2], &args[3]),
+        Some("local") => local::run(&args[2], &args[3]),
         Some("awset") => awset::run(&args[2], &args[3]),
         Some("awset-random") => awset::random(&args[2], args[3].parse().unwrap(), args[4].parse().unwrap(), args[5].parse().unwrap()),
         _ => {
